@@ -1,6 +1,6 @@
 SPECIFICATION Spec
 CONSTANTS
-  Quirks = {"FileMapBase", "NonGopherPort70"}
+  Quirks = {}
   Tier = "quick"
 INVARIANT AsDocumented
 CHECK_DEADLOCK FALSE
